@@ -1,3 +1,5 @@
 import Sqljson.Audit
 import Sqljson.Props.C20
+import Sqljson.Props.GenFacts
 #audit_ns C20 Sqljson.C20
+#audit C20 [Sqljson.GenFacts.cancel_site_class, Sqljson.GenFacts.raise_unchanged]
